@@ -62,6 +62,8 @@ def exactArith : PArith Int where
   lt a b := decide (a < b)
   le a b := decide (a ≤ b)
   range := rangeExact
+  ofInt i := i * 100
+  floorI32 x := x / 100
 
 theorem exactArith_rangeLaw : RangeLaw exactArith :=
   ⟨fun lo hi n h1 h2 h3 => ⟨(rangeExact_bounds lo hi n h1 h3).1, (rangeExact_bounds lo hi n h1 h3).2.2 h2⟩⟩
